@@ -802,6 +802,37 @@ def sarr_isnan(a):
     return companion_view(a, "nan")
 
 
+def _where(cond, x, y):
+    """np.where(cond, x, y) with broadcasting; the NaN-companion form (where(valid(v), v, c)) keeps its structured meaning"""
+    if x is None or y is None:
+        raise core.Unsupported("np.where with one argument (data-dependent shape)")
+    if isinstance(cond, SArr) and isinstance(x, SArr) and not isinstance(y, SArr):
+        try:
+            return sarr_where(cond, x, y)
+        except core.Unsupported:
+            pass
+
+    def arr(v):
+        if isinstance(v, SArr):
+            return v
+        if isinstance(v, np.ndarray):
+            if v.ndim:
+                raise core.Unsupported("np.where with a non-scalar NumPy operand next to symbolic arrays")
+            v = v.item()
+        c = core.SymReal._r(v)
+        return SArr((), lambda idx, c=c: c)
+
+    c_, x_, y_ = arr(cond), arr(x), arr(y)
+    nd = max(c_.ndim, x_.ndim, y_.ndim)
+    shape = []
+    for k in range(nd):
+        dims = [a.shape[a.ndim - nd + k] for a in (c_, x_, y_) if a.ndim - nd + k >= 0]
+        d = next((v for v in dims if not _concrete_one(v)), 1)
+        shape.append(d)
+    cb, xb, yb = c_.broadcast_to(shape), x_.broadcast_to(shape), y_.broadcast_to(shape)
+    return SArr(tuple(shape), lambda idx: z3.If(_as_bool(cb._at(idx)), xb._at(idx), yb._at(idx)), x_.dtype if isinstance(x, SArr) else None, c_.log)
+
+
 def sarr_where(cond, x, y):
     """np.where(valid, values, c): the 'clean' companion, when cond is the validity view of the same view"""
     cs, xs = cond.struct, x.struct
@@ -893,6 +924,7 @@ _NP_FUNCS = dict(
     diagonal=lambda a, offset=0, axis1=0, axis2=1: _diagonal(a, offset, axis1, axis2),
     diag=lambda v, k=0: _diag(v, k),
     asfortranarray=lambda a, dtype=None, like=None: a,
+    where=lambda cond, x=None, y=None: _where(cond, x, y),
     can_cast=lambda from_, to, casting="safe": np.can_cast(from_.dtype if isinstance(from_, SArr) and from_.dtype is not None else np.float64, to, casting=casting),
     empty_like=lambda a, dtype=None, order="K", subok=True, shape=None: _empty_like(a, shape),
     sliding_window_view=lambda x, window_shape, axis=None, **k: _sliding_window_view(x, window_shape, axis),
@@ -1046,6 +1078,9 @@ def concatenate_nested(nested):
         return nested
     # blocks may have higher rank than the nesting depth: concatenate over leading axes
     return rec(nested, 0)
+
+
+concatenate_nested.__symx_kernel__ = True
 
 
 def assemble(blocks, numblocks):
